@@ -110,7 +110,7 @@ def run_history(cond, prop_tags, raw, make, ops, history, battery, snapshot):
         for code in history[:upto]:
             name, fn = ops[code]
             if name.startswith("SUBJECT:"):
-                fn(obj)
+                chx.guarded(fn, obj)     # an edit the class refuses is refused on the subject too
         return obj
     if history:
         fresh = replay_mutations(make(), len(history) - 1)
@@ -274,6 +274,55 @@ def c19_fa(subject: int, ops: H3, k: int) -> bool:
 
 
 NFAOPS = len(FA_OPS)
+
+
+# automata that are queried, then edited through their own public API, then queried again
+FA_EDIT_OPS = [
+    ("accepts", lambda x: x.accepts(["a"])),
+    ("eclose_start", lambda x: sorted(map(repr, x.eclose_iterable(x.start_states)))),
+    ("is_empty", lambda x: x.is_empty()),
+    ("is_deterministic", lambda x: x.is_deterministic()),
+    ("minimize", lambda x: x.minimize()),
+    ("remove_epsilon_transitions", lambda x: x.remove_epsilon_transitions()),
+    ("to_regex", lambda x: x.to_regex()),
+    ("union_self", lambda x: x.union(x)),
+    ("get_complement", lambda x: x.get_complement()),
+    ("SUBJECT:remove_eps_0_1", lambda x: x.remove_transition(0, "epsilon", 1)),
+    ("SUBJECT:remove_a_0_1", lambda x: x.remove_transition(0, "a", 1)),
+    ("SUBJECT:add_eps_1_0", lambda x: x.add_transition(1, "epsilon", 0)),
+    ("SUBJECT:add_b_0_1", lambda x: x.add_transition(0, "b", 1)),
+    ("SUBJECT:add_final_0", lambda x: x.add_final_state(0)),
+    ("SUBJECT:remove_final_1", lambda x: x.remove_final_state(1)),
+    ("SUBJECT:add_start_1", lambda x: x.add_start_state(1)),
+    ("SUBJECT:remove_start_0", lambda x: x.remove_start_state(0)),
+]
+FA_EDIT_SUBJECTS = [
+    (0, 2, [(0, 0, 1), (1, 1, 1)], [0], [1]),             # eps then a*
+    (0, 2, [(0, 1, 1), (0, 0, 1), (1, 1, 0)], [0], [1]),  # eps parallel to a, back edge
+    (0, 2, [(0, 1, 1)], [0], [1]),
+    (1, 2, [(0, 1, 1), (1, 2, 0)], [0], [1]),             # DFA
+]
+NFAEDITOPS = len(FA_EDIT_OPS)
+
+
+def c19_fa_edit(subject: int, ops: H3, k: int) -> bool:
+    """
+    pre: pinned(subject=subject, k=k, o0=ops[0], o1=ops[1], g0=ops[0] % 4)
+    pre: ((0 <= subject) & (subject < 4)) & ((1 <= k) & (k <= 3))
+    pre: enc.word_ranges(ops, k, NFAEDITOPS)
+    post: _
+    """
+    raw = (subject, ops, k)
+    s = FA_EDIT_SUBJECTS[enc.pick(subject, len(FA_EDIT_SUBJECTS))]
+    kk = enc.pick(k, 4)
+    hist = [enc.pick(ops[i], len(FA_EDIT_OPS)) for i in range(kk)]
+    cls = FA_CLASSES[s[0]]
+
+    def make():
+        return enc.build_enfa(cls, s[1], s[2], s[3], s[4])
+    obs = run_history("c19_fa_edit", [], raw, make, FA_EDIT_OPS, hist, fa_battery, fa_snapshot)
+    return chx.judge("C19", "c19_fa_edit", raw, ({"class": cls.__name__, "edges": s[2], "starts": s[3],
+                                                   "finals": s[4]}, hist), obs, history_oracle)
 
 
 # ----------------------------------------------------------------------------------------
@@ -549,4 +598,11 @@ CONDS = [
          {"quick": "3 PDAs x histories of 1-2 calls out of 11 ops (conversions, conversions of conversions, "
                    "mutation of returned PDAs)", "thorough": "up to 3 calls"},
          FUNCS, RULE, assumptions=ASSUME),
+    Cond("C19", c19_fa_edit, _sh(len(FA_EDIT_SUBJECTS), len(FA_EDIT_OPS)),
+         {"quick": "4 automata (3 eps-NFA with eps edges, 1 DFA) x histories of 1-2 calls out of 9 queries and 8 edits "
+                   "of the subject itself (remove / add a transition incl. eps, add / remove a start or final state): "
+                   "the edited automaton must answer like a freshly built automaton with the same edits",
+          "thorough": "up to 3 calls (query, edit, query) for the first subject"},
+         FUNCS + ["FiniteAutomaton.remove_transition / add_transition / add_start_state / remove_final_state",
+                  "EpsilonNFA.eclose / eclose_iterable"], RULE, assumptions=ASSUME),
 ]
